@@ -217,6 +217,10 @@ def loadback_case(args):
         sim_args = ['-c', 'python=1'] if k % 3 == 2 else []
         if sim_args:
             desc += ' [python=1]'
+        if k % 4 == 1:
+            # the LOAD command typed on the simulated keyboard (doubled quote key) instead of tap2sna's shortcut
+            sim_args += ['-c', 'load=LOAD ""']
+            desc += ' [load=LOAD ""]'
         o2 = _run_main(tap2sna.main, sim_args + [tapef, z80f])
         if not os.path.exists(z80f) or 'EXC' in o2 or 'EXIT' in o2:
             return ('tap2sna', desc, o2[-200:].replace('\n', '|'))
